@@ -31,6 +31,7 @@ def check(impl, scn):
         if tk[0] == "C" and "=>" in tk:
             op = tk[2:tk.index("=>")]
             if not op: continue
+            if tk[-1] in ("skipped", "bad-op"): continue
             if op[0] == "stop": stopped = True
             if "." in op[0]:
                 o, m = op[0].split(".", 1)
